@@ -49,10 +49,36 @@ def _downgrade_opaque(prog: Program, res: Result) -> None:
     if not res.findings:
         return
     keep = []
+    # slots the graph classes declare beyond the seven the rules know:
+    # auxiliary state (memo cells, caches) whose observability is not decided
+    inventory_slots = {"_atom_attrs", "_neighbors", "_bond_attrs",
+                       "_atom_stereo", "_bond_stereo", "_atom_stereo_change",
+                       "_bond_stereo_change"}
+    new_slots: set[str] = set()
+    for c in ("MolGraph", "StereoMolGraph", "CondensedReactionGraph",
+              "StereoCondensedReactionGraph"):
+        if c in prog.classes:
+            try:
+                new_slots |= set(prog.all_slots(c)) - inventory_slots
+            except Exception:
+                pass
     for f in res.findings:
         if f.rule.startswith("R-CACHE-") or f.rule == "R-MEMO-INVALIDATE":
             keep.append(f)
             continue
+        if new_slots and not f.rule.endswith("-STATELESS"):
+            import re as _re
+            hit = sorted(s_ for s_ in new_slots if _re.search(
+                rf"(?<![A-Za-z0-9_]){_re.escape(s_)}(?![A-Za-z0-9_])",
+                f.msg + " " + f.key))
+            if hit:
+                res.unrecognised(
+                    f.rule, f.key[:120], f.where,
+                    "the rule reported `" + f.msg[:160] + "`, which is about "
+                    f"the slot {hit[0]}: it is outside the rule inventory "
+                    "(auxiliary state of a refactored class); whether it is "
+                    "observable state of the graph is not decided")
+                continue
         path, _, line = f.where.rpartition(":")
         try:
             fi = prog.function_at(path, int(line))
